@@ -9,6 +9,7 @@ from pyvc.engine import Unit
 from pyvc.spec import And, Or, Not, ite, Implies, is_instance, type_of
 from pyvc.path import RaiseEx
 from pyvc.values import SBytes, values_equal, SObj
+import checks.drv_common  # noqa: F401  (registers the driver classes as init-built)
 from pyvc.aio import World, install, MQueue
 from pyvc import sym
 from dali import frame as F, command as C
